@@ -10,6 +10,7 @@ import SuccinctlyVerif.Proof.JsonNav
 import SuccinctlyVerif.Proof.JsonNavTree
 import SuccinctlyVerif.Proof.JsonNavDecode
 import SuccinctlyVerif.Proof.JsonNavRange
+import SuccinctlyVerif.Proof.JsonNavFull
 namespace SV.Props.C06
 open SV SV.JsonNav SV.JsonText SV.JsonSemi
 
@@ -85,6 +86,34 @@ order, fields in source order).  `fuel` only bounds the recursion depth of the w
 theorem navigate_eq (hasAvx2 : Bool) (d : Doc) (fuel : Nat) (hf : depth d.value ≤ fuel) :
     reconstruct (build hasAvx2 false d.text) fuel 0 = valueOf d.value :=
   navigate_doc hasAvx2 d fuel hf
+
+/-- `navigate_eq` with no free navigation hypotheses: `buildComposed` is `JsonIndex::build` composed
+from the dispatched semi-index builder (C05), the full model of `BalancedParens::new` with its
+L0/L1/L2 and rank directories (C04, either feature build `simd`) and `ib_select1_from` with its rank
+array and galloping search (C07).  For every document shorter than 2^30 bytes (so that
+`bp_len = 2·nodes < 2^31`, the side condition of C04's `find_close` / `enclose` theorems; `build`
+itself asserts `len ≤ u32::MAX`) the build succeeds and the walk from the root yields the value of
+the document.  Which theorem closes which primitive: `is_open` ← `C04.is_open_eq`, `find_close` ←
+`C04.find_close_family_eq`, `parent` ← `C04.method_enclose_eq`, `rank1` ← `C04.rank1_eq`,
+`ib_select1_from` ← `C07.text_position_eq`; `first_child` / `next_sibling` are the C04 model's own
+methods (`moves_composed`).  Still trusted: `core::str::from_utf8` and `char::from_u32`. -/
+theorem navigate_eq_composed (hasAvx2 simd : Bool) (d : Doc) (hlen : d.text.length < 2 ^ 30) (fuel : Nat)
+    (hf : depth d.value ≤ fuel) :
+    (buildComposed hasAvx2 simd d.text).map (fun x => reconstruct x fuel 0) = some (valueOf d.value) :=
+  navigate_composed hasAvx2 simd d hlen fuel hf
+
+/-- The composed primitives equal the specification primitives on the whole domain of the
+constructors (not only on documents). -/
+theorem prims_discharged (simd : Bool) (ibWords bpWords : List (BitVec 64)) (ibLen bpLen : Nat)
+    (hw : bpWords.length = (bpLen + 63) / 64) (hlen : bpLen < 2 ^ 31)
+    (hb : (ibWords.map popcount).sum < JsonIb.U32) :
+    (BPM.construct simd true bpWords bpLen .noSelect).map (fun I => Prims.composed I ibWords ibLen) =
+      some (Prims.spec (bitsOf ibWords ibLen) (bitsOf bpWords bpLen)) :=
+  prims_composed_eq_spec simd ibWords bpWords ibLen bpLen hw hlen hb
+
+example : (buildComposed true false [0x5B#8, 0x31#8, 0x2C#8, 0x5B#8, 0x5D#8, 0x5D#8]).map
+    (fun x => (children x 0, textPosition x 3, parent x 3)) = some ([1, 3], some 3, some 0) := by
+  decide +kernel
 
 /-- `JsonFields::find` / `find_cursor` on the object at cursor `p` of any index: when every key
 decodes, the result is the value of the LAST field — in `uncons` order, which by `navigate_eq` is
